@@ -207,6 +207,72 @@ fn traces(depth: usize) -> Vec<TraceED> {
     level
 }
 
+/// Histories of the pinned corpus on a real instance: every answer of a method with a typed result is
+/// deserialised into that type and serialised again; the JSON value must be the one the server sent.
+fn real_data_pass(t: &mut Tally) {
+    use crate::inst::Inst;
+    use crate::world::World;
+    use std::collections::HashMap;
+    fn rt<T: serde::Serialize + serde::de::DeserializeOwned>(v: &Value) -> Result<(), String> {
+        let d: T = serde_json::from_value(v.clone()).map_err(|e| format!("does not deserialise: {}", e))?;
+        let back = serde_json::to_value(&d).map_err(|e| e.to_string())?;
+        if &back != v {
+            return Err(format!("re-serialises as {}", back.to_string().chars().take(500).collect::<String>()));
+        }
+        Ok(())
+    }
+    let mut inst = Inst::fresh();
+    let mut n = 0u64;
+    let mut by_type: std::collections::BTreeMap<&str, u64> = Default::default();
+    for (name, steps) in super::golden::corpus() {
+        inst.wipe();
+        let mut w = World::new();
+        for s in &steps {
+            w.exec(&mut inst, s);
+        }
+        let mut check = |what: &'static str, m: &str, p: Value, f: &dyn Fn(&Value) -> Result<(), String>, inst: &mut Inst, t: &mut Tally| {
+            let r = inst.call(m, p.clone());
+            let Some(v) = r.result() else { return };
+            if v.is_null() {
+                return;
+            }
+            n += 1;
+            *by_type.entry(what).or_insert(0) += 1;
+            if let Err(e) = f(v) {
+                if t.violations.len() < 20 {
+                    t.violations.push((format!("json-served-{}", what), format!("history {}: {} {} answered {} which {}", name, m, p, v.to_string().chars().take(500).collect::<String>(), e)));
+                }
+            }
+        };
+        for b in 0..=w.uni.max_height {
+            check("BlockResponseED", "eth_getBlockByNumber", json!([format!("{}", b), false]), &rt::<BlockResponseED>, &mut inst, t);
+            check("BlockResponseED(full)", "eth_getBlockByNumber", json!([format!("{}", b), true]), &rt::<BlockResponseED>, &mut inst, t);
+            check("Vec<LogED>", "eth_getLogs", json!([{"fromBlock": format!("{}", b), "toBlock": format!("{}", b)}]), &rt::<Vec<LogED>>, &mut inst, t);
+            for i in 0..4u64 {
+                check("TxED", "eth_getTransactionByBlockNumberAndIndex", json!([b, i]), &rt::<TxED>, &mut inst, t);
+            }
+        }
+        for h in w.uni.h32.clone() {
+            check("TxED", "eth_getTransactionByHash", json!([h]), &rt::<TxED>, &mut inst, t);
+            check("TxReceiptED", "eth_getTransactionReceipt", json!([h]), &rt::<TxReceiptED>, &mut inst, t);
+            check("TraceED", "debug_traceTransaction", json!([h]), &rt::<TraceED>, &mut inst, t);
+            check("BlockResponseED", "eth_getBlockByHash", json!([h, true]), &rt::<BlockResponseED>, &mut inst, t);
+        }
+        for i in w.uni.inscs.clone() {
+            check("TxReceiptED", "brc20_getTxReceiptByInscriptionId", json!([i]), &rt::<TxReceiptED>, &mut inst, t);
+        }
+        for a in w.uni.addrs.clone() {
+            check("BytecodeED", "eth_getCode", json!([a]), &rt::<BytecodeED>, &mut inst, t);
+            check("txpool", "txpool_contentFrom", json!([a]), &rt::<HashMap<String, HashMap<AddressED, HashMap<u64, TxED>>>>, &mut inst, t);
+        }
+        check("txpool", "txpool_content", json!([]), &rt::<HashMap<String, HashMap<AddressED, HashMap<u64, TxED>>>>, &mut inst, t);
+    }
+    t.evaluations += n;
+    t.types.push(json!({"json_of_served_answers": by_type, "values": n}));
+    drop(inst);
+    crate::inst::cleanup_scratch();
+}
+
 pub fn run(tier: &str, seed: u64) -> i32 {
     let t0 = Instant::now();
     let mut t = Tally::default();
@@ -462,6 +528,113 @@ pub fn run(tier: &str, seed: u64) -> i32 {
     check_json(&mut t, "AddressED", &addrs());
     check_json(&mut t, "BytesED", &byteses().into_iter().take(5).map(BytesED::from).collect::<Vec<_>>());
     check_json(&mut t, "BytecodeED", &codes);
+
+    // --- long sequences: the element count needs more than one byte (and more than a small integer type) ---
+    for n in [255usize, 256, 257, 65_537] {
+        let v: Vec<B256ED> = (0..n).map(|k| { let mut b = [0u8; 32]; b[28..].copy_from_slice(&(k as u32).to_be_bytes()); B256ED::from(b) }).collect();
+        check_codec(&mut t, &format!("Vec<B256ED>[{}]", n), &[v.clone()], cap);
+        let mut b = template.clone();
+        b.transactions = either::Either::Left(v);
+        check_codec(&mut t, &format!("BlockResponseED[{} transactions]", n), &[b.clone()], cap);
+        if n <= 257 {
+            check_json(&mut t, &format!("BlockResponseED[{} transactions]", n), &[b]);
+        }
+    }
+    for n in [255usize, 256, 300] {
+        let mut r = rcs[5].clone();
+        r.logs = (0..n).map(|k| { let mut l = lg[(k * 7) % lg.len()].clone(); l.log_index = (k as u64).into(); l }).collect();
+        check_codec(&mut t, &format!("TxReceiptED[{} logs]", n), &[r.clone()], cap);
+        check_json(&mut t, &format!("TxReceiptED[{} logs]", n), &[r]);
+        let mut tr = trs[3].clone();
+        tr.calls = (0..n).map(|k| trs[k % trs.len()].clone()).collect();
+        check_codec(&mut t, &format!("TraceED[{} calls]", n), &[tr.clone()], cap);
+        check_json(&mut t, &format!("TraceED[{} calls]", n), &[tr]);
+        let s: Vec<String> = (0..n).map(|k| "x".repeat(k % 5)).collect();
+        check_codec(&mut t, &format!("Vec<String>[{}]", n), &[s], cap);
+    }
+    check_codec(&mut t, "String[255,256,257]", &["a".repeat(255), "b".repeat(256), "é".repeat(257)], cap);
+    check_codec(&mut t, "BytesED[255,256,257,65535]", &[vec![1u8; 255], vec![2u8; 256], vec![3u8; 257], vec![4u8; 65535]].into_iter().map(BytesED::from).collect::<Vec<_>>(), cap);
+    // --- histories of variable-length values, 0..=W+1 versions, with deletions ---
+    {
+        let w = brc20_prog::verif::MAX_REORG_HISTORY_SIZE;
+        let mut n = 0u64;
+        for writes in 0..=(w + 1) {
+            for del in [u64::MAX, 0, 1] {
+                let mut h = BlockHistoryCacheData::<BytesED>::new(if writes % 2 == 0 { None } else { Some(vec![7u8; 33].into()) });
+                let mut hs = BlockHistoryCacheData::<String>::new(None);
+                for k in 0..writes {
+                    if del != u64::MAX && k % 3 == del {
+                        h.unset(100 + k);
+                        hs.unset(100 + k);
+                    } else {
+                        h.set(100 + k, vec![k as u8; (k as usize * 37) % 300].into());
+                        hs.set(100 + k, "é".repeat(k as usize));
+                    }
+                }
+                for (name, enc, latest_ok) in [
+                    ("BytesED", h.encode_vec(), BlockHistoryCacheData::<BytesED>::decode(&h.encode_vec(), 0).map(|(d, u)| d.latest() == h.latest() && d.encode_vec() == h.encode_vec() && u == h.encode_vec().len()).unwrap_or(false)),
+                    ("String", hs.encode_vec(), BlockHistoryCacheData::<String>::decode(&hs.encode_vec(), 0).map(|(d, u)| d.latest() == hs.latest() && d.encode_vec() == hs.encode_vec() && u == hs.encode_vec().len()).unwrap_or(false)),
+                ] {
+                    n += 1;
+                    if !latest_ok {
+                        t.violations.push(("roundtrip-BlockHistoryCacheData".into(), format!("history of {} writes of {} (deletions at k%3=={}) does not come back from its encoding ({} bytes)", writes, name, del, enc.len())));
+                    }
+                }
+            }
+        }
+        t.evaluations += n;
+        t.types.push(json!({"type": "BlockHistoryCacheData<BytesED|String>", "values": n}));
+    }
+    // --- request types of the bundled client ---
+    {
+        use brc20_prog::types::{Base64Bytes, EthCall, GetLogsFilter, PrecompileData, RawBytes};
+        let raws = vec![RawBytes::empty(), RawBytes::new("0x".into()), RawBytes::new("0x00ff".into()), RawBytes::from_bytes(Bytes::from(vec![9u8; 33]))];
+        check_json(&mut t, "RawBytes", &raws);
+        let b64s = vec![Base64Bytes::empty(), Base64Bytes::new("".into()), Base64Bytes::new("AAE".into()), Base64Bytes::from_bytes(Bytes::from(vec![0u8; 100])).unwrap(), Base64Bytes::from_bytes(Bytes::from((0..200u8).collect::<Vec<_>>())).unwrap()];
+        check_json(&mut t, "Base64Bytes", &b64s);
+        let mut calls = Vec::new();
+        for from in [None, Some(AddressED::from([0x11u8; 20]))] {
+            for to in [None, Some(AddressED::from([0u8; 20]))] {
+                for d in &raws {
+                    calls.push(EthCall { from: from.clone(), to: to.clone(), data: Some(d.clone()) });
+                }
+                calls.push(EthCall { from: from.clone(), to: to.clone(), data: None });
+            }
+        }
+        check_json(&mut t, "EthCall", &calls);
+        let mut filters = Vec::new();
+        use serde_either::SingleOrVec;
+        let tp: Vec<Option<Vec<SingleOrVec<Option<B256ED>>>>> = vec![
+            None,
+            Some(vec![]),
+            Some(vec![SingleOrVec::Single(None)]),
+            Some(vec![SingleOrVec::Single(Some([1u8; 32].into())), SingleOrVec::Single(None), SingleOrVec::Vec(vec![Some([2u8; 32].into()), Some([3u8; 32].into())])]),
+            Some(vec![SingleOrVec::Vec(vec![]), SingleOrVec::Vec(vec![None, Some([4u8; 32].into())])]),
+        ];
+        for fb in [None, Some("latest".to_string()), Some("0x10".to_string()), Some("7".to_string())] {
+            for tb in [None, Some("pending".to_string())] {
+                for a in [None, Some(AddressED::from([0x22u8; 20]))] {
+                    for topics in &tp {
+                        filters.push(GetLogsFilter { from_block: fb.clone(), to_block: tb.clone(), address: a.clone(), topics: topics.clone() });
+                    }
+                }
+            }
+        }
+        check_json(&mut t, "GetLogsFilter", &filters);
+        let mut pds = Vec::new();
+        for ids in [vec![], vec![B256ED::from([5u8; 32])], vec![B256ED::from([5u8; 32]), B256ED::from([0u8; 32])]] {
+            for hexes in [vec![], vec![(B256ED::from([6u8; 32]), RawBytes::new("0x0200".into()))]] {
+                pds.push(PrecompileData { op_return_tx_ids: ids.clone(), bitcoin_tx_hexes: hexes.into_iter().collect() });
+            }
+        }
+        check_json(&mut t, "PrecompileData", &pds);
+        check_json(&mut t, "U128ED", &u128ed);
+        check_json(&mut t, "U8ED", &[0u8, 1, 255].map(U8ED::from));
+        check_json(&mut t, "B2048ED", &[B2048ED::from([0u8; 256]), B2048ED::from([0xffu8; 256])]);
+        check_json(&mut t, "AccountInfoED", &accts[..64.min(accts.len())]);
+    }
+    // --- what a real instance serves: every typed answer deserialised and serialised again ---
+    real_data_pass(&mut t);
 
     let mut ev = Evidence::new("C14", tier, seed, "exploration");
     ev.coverage = json!({
